@@ -107,6 +107,20 @@ def main():
     except Exception:
         broken.append(dict(kind='harness', detail=traceback.format_exc()[-3000:]))
 
+    # 4b. thorough: independent re-check (coqchk) and in-Coq cross-check of the extracted runner
+    if tier == 'thorough' and not broken:
+        with build.Lock():
+            if model is not None:
+                xok, xn, xlog = build.crosscheck_in_coq(runner, model.sample)
+                ctx.extra['extraction_crosscheck'] = dict(cases=xn, ok=xok)
+                if not xok:
+                    broken.append(dict(kind='extraction-crosscheck', detail=xlog))
+            if os.environ.get('VERIF_COQCHK', '1') != '0':
+                cok, clog = build.coqchk([r for r in roots if r.startswith(('Props/', 'GenProps/'))])
+                ctx.extra['coqchk'] = dict(ok=cok, report=clog[-1500:])
+                if not cok:
+                    broken.append(dict(kind='coqchk', detail=clog))
+
     # 5. decide
     known_lines = []
     for f in findings.open_for(pid):
